@@ -246,27 +246,33 @@ fn cmp_seek() {
                 _ => {}
             }
         }
-        if v_str("op", "start") == "start" && k >= 2 {
-            // history dependence: consume block 0 to its very last byte (the reader then still holds
-            // the exhausted decompressor of block 0), abandon, and seek into the next block
-            rd.seek(SeekFrom::Start(0)).ok()?;
-            let mut sink = vec![0u8; BLOCK as usize];
+        if v_str("op", "start") == "start" {
+            // history dependence (own 2-block stream, whatever shape the solver's table has): consume
+            // block 0 to its very last byte (the reader then still holds the exhausted decompressor of
+            // block 0), abandon, and seek into the next block
+            let total2 = BLOCK + 1000;
+            let data2 = data_of(total2, 1);
+            let (comp2, _) = compress_stream(&data2, 1);
+            let mut rd2 = CompressionLayerReader::new(Box::new(RawLayerReader::new(Cursor::new(comp2)))).unwrap();
+            rd2.initialize().unwrap();
+            let mut sink = vec![0u8; BLOCK as usize + 64];
             let mut got = 0usize;
-            while got < sink.len() {
-                match rd.read(&mut sink[got..]) {
+            // one read with a buffer larger than what is left in the block (reads never cross a block edge)
+            while got < BLOCK as usize {
+                match rd2.read(&mut sink[got..]) {
                     Ok(0) => break,
                     Ok(n) => got += n,
                     Err(e) => return Some(format!("reading block 0 failed: {e}")),
                 }
             }
-            let p = (BLOCK + (v_u64("p", 0) % BLOCK).min(total - BLOCK - 1)).min(total - 1);
-            match rd.seek(SeekFrom::Start(p)) {
+            let p = BLOCK + (v_u64("p", 0) % 900);
+            match rd2.seek(SeekFrom::Start(p)) {
                 Ok(g) if g == p => {
                     let mut b = [0u8; 16];
-                    let want = &data[p as usize..(p as usize + 16).min(data.len())];
+                    let want = &data2[p as usize..p as usize + 16];
                     let mut nb = 0;
                     while nb < want.len() {
-                        match rd.read(&mut b[nb..want.len()]) {
+                        match rd2.read(&mut b[nb..want.len()]) {
                             Ok(0) => break,
                             Ok(x) => nb += x,
                             Err(e) => return Some(format!("after reading block 0 to its last byte, seek(Start({p})) then read failed: {e}")),
